@@ -47,6 +47,7 @@ struct client {
 };
 static struct client clients[MAXC];
 static int nclients, ntasks;
+static int nrefs; /* references in existence: one per client + every acquire so far */
 static char taskfn[MAXT + 1][24];
 static int rel_begun;
 
@@ -90,7 +91,7 @@ static void task_fn(struct aws_task *task, void *arg, enum aws_task_status statu
     log_time("vt", vs_now_ns());
     vh_end();
     /* re-entrancy: a task function may use the scheduler it runs on, as long as the last reference is not being dropped */
-    if (taskfn[t][0] && rel_begun < nclients) {
+    if (taskfn[t][0] && rel_begun < nrefs) {
         do_sched_op(taskfn[t], -1);
     }
     /* the way a real program learns that its task ran is synchronised; tell the race detector so */
@@ -181,6 +182,13 @@ static void run_client(void *arg) {
             aws_thread_current_sleep((uint64_t)atoi(op + 1) * 1000000ull);
         } else if (op[0] == 'P') {
             vs_point();
+        } else if (op[0] == 'G') {
+            /* one more reference, taken by a client that still holds one (released by one more R of the same client) */
+            nrefs++;
+            vh_begin("AcqRef");
+            vh_int("client", c->k);
+            vh_end();
+            aws_thread_scheduler_acquire(sched);
         } else if (op[0] == 'R') {
             rel_begun++;
             vh_begin("RelBegin");
@@ -229,6 +237,7 @@ static void scenario(char **lines, int nlines) {
         free(dup);
     }
     aws_high_res_clock_get_ticks(&t0);
+    nrefs = nclients;
     vh_begin("Setup");
     vh_int("nclients", nclients);
     vh_int("ntasks", ntasks);
